@@ -750,7 +750,64 @@ class _Fit:
         return out
 
     # ---- everything else must be free of state
+    FRESH_CALLS = {"np.full", "np.ones", "np.zeros", "np.empty", "np.ones_like", "np.zeros_like", "np.full_like",
+                   "np.empty_like", "np.array", "np.copy", "np.arange", "np.linspace", "numpy.array", "numpy.full",
+                   "numpy.ones", "numpy.zeros", "copy.deepcopy", "deepcopy", "dict", "list", "set", "float", "int"}
+
+    @classmethod
+    def is_fresh(cls, v) -> bool:
+        """does the expression create a new object that nothing else refers to (or an immutable number)?"""
+        if isinstance(v, (ast.Dict, ast.List, ast.Set, ast.ListComp, ast.DictComp, ast.SetComp)):
+            return True
+        if _num_const(v) is not None or _ext_const(v) is not None:
+            return True
+        if isinstance(v, ast.Call):
+            f = ast.unparse(v.func)
+            if f in cls.FRESH_CALLS:
+                return not any(k.arg == "copy" for k in v.keywords)
+            if isinstance(v.func, ast.Attribute) and v.func.attr in ("copy", "astype") and not v.keywords:
+                return v.func.attr == "copy" or not any(k.arg == "copy" for k in v.keywords)
+        if isinstance(v, ast.BinOp):          # arithmetic on arrays / numbers yields a new object
+            return True
+        return False
+
+    @classmethod
+    def fresh_names(cls, fn) -> set:
+        """local names every assignment of which (in this function) binds a freshly created object"""
+        vals: dict = {}
+        for n in ast.walk(fn):
+            if isinstance(n, ast.Assign):
+                for t in n.targets:
+                    if isinstance(t, ast.Name):
+                        vals.setdefault(t.id, []).append(n.value)
+                    elif isinstance(t, (ast.Tuple, ast.List)):
+                        for e in t.elts:
+                            if isinstance(e, ast.Name):
+                                vals.setdefault(e.id, []).append(None)
+            elif isinstance(n, ast.AnnAssign) and isinstance(n.target, ast.Name):
+                vals.setdefault(n.target.id, []).append(n.value)
+            elif isinstance(n, (ast.For, ast.comprehension)):
+                for e in ast.walk(n.target):
+                    if isinstance(e, ast.Name):
+                        vals.setdefault(e.id, []).append(None)
+            elif isinstance(n, (ast.With,)):
+                for it in n.items:
+                    if it.optional_vars is not None:
+                        for e in ast.walk(it.optional_vars):
+                            if isinstance(e, ast.Name):
+                                vals.setdefault(e.id, []).append(None)
+            elif isinstance(n, ast.NamedExpr) and isinstance(n.target, ast.Name):
+                vals.setdefault(n.target.id, []).append(n.value)
+        params = {a.arg for a in fn.args.args + fn.args.kwonlyargs + fn.args.posonlyargs}
+        return {k for k, vs in vals.items() if k not in params and all(v is not None and cls.is_fresh(v) for v in vs)}
+
     def scan_rest(self, fn, strict_locals: bool):
+        fresh = self.fresh_names(fn) if strict_locals else set()
+
+        def base_name(e):
+            while isinstance(e, (ast.Subscript, ast.Attribute)):
+                e = e.value
+            return e.id if isinstance(e, ast.Name) else None
         for n in ast.walk(fn):
             if n is not fn and isinstance(n, (ast.FunctionDef, ast.AsyncFunctionDef, ast.Lambda, ast.ClassDef)):
                 fail(n, f"{fn.name}: nested definition")
@@ -762,10 +819,11 @@ class _Fit:
                     for e in (t.elts if isinstance(t, (ast.Tuple, ast.List)) else [t]):
                         if _root_is_self(e):
                             fail(n, f"{fn.name}: writes the problem object")
-                        if strict_locals and isinstance(e, (ast.Subscript, ast.Attribute)):
+                        if strict_locals and isinstance(e, (ast.Subscript, ast.Attribute)) and base_name(e) not in fresh:
                             fail(n, f"{fn.name}: stores into an object that may belong to the problem")
                 if strict_locals and isinstance(n, ast.AugAssign) and not (
-                        isinstance(n.target, ast.Name) and n.target.id == self.acc and fn is self.fn):
+                        isinstance(n.target, ast.Name) and n.target.id == self.acc and fn is self.fn) \
+                        and base_name(n.target) not in fresh:
                     fail(n, f"{fn.name}: in-place operation on an object that may belong to the problem")
             if isinstance(n, ast.Call):
                 f = ast.unparse(n.func)
@@ -877,8 +935,8 @@ class _Fit:
         for n in ast.walk(fn):
             if isinstance(n, ast.Try):
                 for h in n.handlers:
-                    if not (h.body and isinstance(h.body[-1], ast.Raise) and h.body[-1].exc is None):
-                        fail(h, "fitness: an exception handler must re-raise")
+                    if not (h.body and isinstance(h.body[-1], ast.Raise)):
+                        fail(h, "fitness: an exception handler must end by raising")
                     if any(isinstance(x, (ast.Return, ast.Break, ast.Continue)) for s in h.body for x in ast.walk(s)):
                         fail(h, "fitness: an exception handler returns")
                 if any(isinstance(x, (ast.Return, ast.Break, ast.Continue)) for s in n.finalbody for x in ast.walk(s)):
